@@ -70,7 +70,8 @@ struct Rec {
 // ---------------- descriptions ----------------
 struct OptD { char type; char kind; std::string pat; bool anym; std::string mpat; int hid; std::vector<int> sel; int msel, kid; };
 struct MentD { char type; std::string key, tmpl; int kid; };
-struct AppD { std::string root; std::vector<OptD> opts; std::vector<MentD> ments; std::vector<AppD> kids; };
+struct AppD { std::string root; std::vector<OptD> opts; std::vector<MentD> ments; std::vector<AppD> kids;
+              std::vector<std::pair<std::string,std::string> > pre; /* set_value on this node's mapper BEFORE the parent mounts it */ };
 
 struct Toks {
 	std::vector<std::string> v; size_t i;
@@ -143,6 +144,8 @@ public:
 			for(size_t i=0;i<d.opts.size();i++) add_opt(d.opts[i]);
 			for(size_t i=0;i<d.ments.size();i++) add_ment(d.ments[i]);
 			for(size_t i=0;i<kids.size();i++) if(!attached[i]) { attached[i]=true; attach(kids[i]); }
+			// values set on this mapper while it is still the topmost one: url_mapper::mount of the parent moves them upwards
+			for(size_t i=0;i<d.pre.size();i++) mapper().set_value(d.pre[i].first,d.pre[i].second);
 		}
 		catch(...) {
 			for(size_t i=0;i<kids.size();i++) if(!attached[i]) delete kids[i];
@@ -335,8 +338,24 @@ static std::string run_tree(Toks &t)
 	int nv=t.counted('V');
 	std::vector<std::pair<std::string,std::string> > vals;
 	for(int i=0;i<nv;i++) { std::string k=t.hexs(); std::string v=t.hexs(); vals.push_back(std::make_pair(k,v)); }
+	// W<n> (<pos> <key> <value>)*: values set on the mapper of node <pos> before its parent mounts it
+	std::vector<std::pair<std::string,std::pair<std::string,std::string> > > pre;
+	if(!t.peek().empty() && t.peek()[0]=='W') {
+		int nw=t.counted('W');
+		for(int i=0;i<nw;i++) { std::string pos=t.next(); std::string k=t.hexs(); std::string v=t.hexs(); pre.push_back(std::make_pair(pos,std::make_pair(k,v))); }
+	}
 	AppD d=parse_app(t);
+	for(size_t i=0;i<pre.size();i++) {
+		AppD *n=&d;
+		if(pre[i].first!="r") {
+			std::istringstream ss(pre[i].first); std::string tok;
+			while(std::getline(ss,tok,'.')) { int k=atoi(tok.c_str()); if(k<0||size_t(k)>=n->kids.size()) throw std::runtime_error("W position"); n=&n->kids[k]; }
+		}
+		n->pre.push_back(pre[i].second);
+	}
 	t.expect("Q");
+	// every change of a helper value, in order: replayed on the twin tree when that is created
+	std::vector<std::vector<std::string> > hist;
 	cppcms::service &srv=service_for(throws);
 	std::unique_ptr<Node> root;
 	try { root.reset(new Node(srv,d)); }
@@ -344,6 +363,7 @@ static std::string run_tree(Toks &t)
 	catch(cppcms::cppcms_error const &) { return "CONSTRUCT-ERROR"; }
 	catch(booster::regex_error const &) { return "REGEX-ERROR"; }
 	for(size_t i=0;i<vals.size();i++) root->mapper().set_value(vals[i].first,vals[i].second);
+	std::vector<std::pair<std::string,std::string> > const vals0=vals;
 	std::ostringstream out;
 	bool first=true;
 	std::unique_ptr<Node> alt;
@@ -370,7 +390,11 @@ static std::string run_tree(Toks &t)
 			// misc.invalid_url_throws: the switch may only turn an exception into the marker url
 			if(!alt.get()) {
 				alt.reset(new Node(service_for(!throws),d));
-				for(size_t i=0;i<vals.size();i++) alt->mapper().set_value(vals[i].first,vals[i].second);
+				for(size_t i=0;i<vals0.size();i++) alt->mapper().set_value(vals0[i].first,vals0[i].second);
+				for(size_t i=0;i<hist.size();i++) {
+					if(hist[i][0]=="s") alt->at(hist[i][1])->mapper().set_value(hist[i][2],hist[i][3]);
+					else alt->at(hist[i][1])->mapper().clear_value(hist[i][2]);
+				}
 			}
 			bool ok2; std::string u2=alt->at(pos)->run_map(key,p,ok2);
 			bool same;
@@ -378,10 +402,31 @@ static std::string run_tree(Toks &t)
 			else       same = ok2 ? (ok && u==u2) : (u2.empty() && ok && u==invalid_marker);
 			if(!same) r+=std::string(" ! ALT-DIFF ")+(ok2?"U "+hex(u2):(u2.empty()?std::string("E"):"E "+u2));
 		}
+		else if(q=="sw" || q=="cw") {
+			// url_mapper::set_value / clear_value called on the mapper of ANY node of the tree: the value lands in root_mapper()
+			// (the harness records it under the root; the generator uses this only on trees whose nodes are all mounted in
+			// their parent's mapper)
+			std::string pos=t.next();
+			std::string k=t.hexs(); std::string v; if(q=="sw") v=t.hexs();
+			for(size_t i=0;i<vals.size();) { if(vals[i].first==k) vals.erase(vals.begin()+i); else i++; }
+			{ std::vector<std::string> h; h.push_back(q=="sw"?"s":"c"); h.push_back(pos); h.push_back(k); h.push_back(v); hist.push_back(h); }
+			if(q=="sw") {
+				vals.push_back(std::make_pair(k,v));
+				root->at(pos)->mapper().set_value(k,v);
+				if(alt.get()) alt->at(pos)->mapper().set_value(k,v);
+				r="s";
+			}
+			else {
+				root->at(pos)->mapper().clear_value(k);
+				if(alt.get()) alt->at(pos)->mapper().clear_value(k);
+				r="c";
+			}
+		}
 		else if(q=="sv" || q=="cv") {
 			// url_mapper::set_value / clear_value between the queries (on the root mapper, and on the twin tree)
 			std::string k=t.hexs(); std::string v; if(q=="sv") v=t.hexs();
 			for(size_t i=0;i<vals.size();) { if(vals[i].first==k) vals.erase(vals.begin()+i); else i++; }
+			{ std::vector<std::string> h; h.push_back(q=="sv"?"s":"c"); h.push_back("r"); h.push_back(k); h.push_back(v); hist.push_back(h); }
 			if(q=="sv") {
 				vals.push_back(std::make_pair(k,v));
 				root->mapper().set_value(k,v);
